@@ -90,8 +90,8 @@ CHECKS = {
          "DESIGN.md section 4 (C11)", "Rocq proof of functional equality with a declarative reply specification + SrcDecisions regeneration + differential correspondence"),
  "C12": ("Theorems (Properties_C12.v, partial): publish() serves exactly the proposals update() wrote; a completed probe rewrites them to "
          "the confirmed candidate and publishes, withdrawing what was served. The convergence statement is decided per run by the "
-         "acceptor's final check (codes 30-34: served type, instance = latest probed candidate of the requested name, port, attributes, "
-         "SRV target = registered hostname) on implementation traces over histories of updates, conflicts and re-probes.",
+         "acceptor's final check (codes 30-35: served type, instance = latest probed candidate of the requested name, port, attributes, "
+         "SRV target = registered hostname, served name not taken - no conflicting response strictly inside the 2000 ms after its latest probe) on implementation traces over histories of updates, conflicts and re-probes.",
          "DESIGN.md section 4 (C12/C13)", "Rocq proof (partial) + executable acceptor with end-of-history check + differential correspondence under virtual time"),
  "C13": ("Theorems (Properties_C13.v, partial): farewell() multicasts exactly the published PTR/SRV/TXT with TTL 0; a re-confirmation says "
          "goodbye before announcing the replacement; SRV/TXT proposals carry the cache-flush bit. The listener statement is decided per "
